@@ -413,12 +413,12 @@ def main_run(prop_id: str, tier: str, replay: Optional[str] = None) -> int:
         f"{prop_id} tier={tier} seed={seed}: evaluations={evaluations} distinct_nontrivial={len(nontriv)} "
         f"ref_errors={ref_errors} excluded_known={sum(excluded.values())} wall={wall:.1f}s"
     )
-    if len(nontriv) < 2:
-        print(f"HARNESS-ERROR property={prop_id} generator produced <2 non-trivial cases")
-        return 2
     if vlines:
         for path, msg, origin in vlines:
             print(f"  [{origin}] {msg}")
             print(f"VIOLATION property={prop_id} replay={path}")
         return 1
+    if len(nontriv) < 2:
+        print(f"HARNESS-ERROR property={prop_id} generator produced <2 non-trivial cases")
+        return 2
     return 0
